@@ -6,11 +6,13 @@ Import ListNotations.
 Open Scope float_scope.
 
 Record acase := mk_acase {
-  a_n : nat; a_A : list cvec; a_rfix : bool; a_cfix : bool; a_vs : list cvec; a_mi : nat; a_tol : float;
+  a_n : nat; a_A : list cvec; a_rfix : bool; a_cfix : bool; a_afix : bool; a_vs : list cvec; a_mi : nat; a_tol : float;
   a_out : list (list cvec * list cvec) }.      (* per batch element: columns of Q (max_iters+1), columns of H (max_iters, each max_iters+1 long) *)
 
 Definition subd (s : @ast cf cvec) (j : nat) : float := fst (Hent (fops 0) (aH s) (S j) j).     (* H[j+1, j] *)
 Definition hscale (s : @ast cf cvec) : float := fold_left (fun acc c => fmax acc (vmaxabs c)) (aH s) 0.
+(* the scale the entries of H are compared relative to (operators of any overall scale; 1 for an all-zero H) *)
+Definition hscale1 (s : @ast cf cvec) : float := if hscale s =? 0 then 1 else hscale s.
 
 (* stopping decisions at idx = 1 .. min(steps, cap-1): norm = H[idx, idx-1] against tol * H[1,0] *)
 Definition a_near_tie (rfix : bool) (tol : float) (cap steps : nat) (ss : list (@ast cf cvec)) : bool :=
@@ -21,9 +23,11 @@ Definition a_near_tie (rfix : bool) (tol : float) (cap steps : nat) (ss : list (
       PrimFloat.abs (x - y) <? tie_tol * fmax (PrimFloat.abs x) (PrimFloat.abs y))
     (seq 1 (Nat.min steps (cap - 1)))) ss.
 (* repaired normalisation: the decision  norm > tol/2  of a step taken *)
-Definition a_clip_tie (cfix : bool) (tol : float) (steps : nat) (ss : list (@ast cf cvec)) : bool :=
+(* the breakdown threshold of the run: tol/2, or tol/2 * ||H[:,0]|| for the relative variant (column 0 of H never changes) *)
+Definition fthr (afix : bool) (tol : float) (s : @ast cf cvec) : float := fst (athr (fops 0) afix (tol, 0) (aH s)).
+Definition a_clip_tie (cfix afix : bool) (tol : float) (steps : nat) (ss : list (@ast cf cvec)) : bool :=
   cfix && existsb (fun s => existsb (fun j =>
-      let x := subd s j in let y := tol / 2 in
+      let x := subd s j in let y := fthr afix tol s in
       PrimFloat.abs (x - y) <? tie_tol * fmax (PrimFloat.abs x) (PrimFloat.abs y)) (seq 0 steps)) ss.
 (* a remainder below 1e-2 of the scale of H was normalised into a column that later steps used *)
 Definition a_amplified (steps : nat) (ss : list (@ast cf cvec)) : bool :=
@@ -35,10 +39,10 @@ Definition last_inactive (steps : nat) (s : @ast cf cvec) : bool :=
    is not compared.  When the model set it to the zero vector (repaired normalisation: remainder norm <= tol/2) it IS compared:
    the implementation must return a zero column there, not garbage or NaN - provided the decision is robust, i.e. the remainder
    (rounding noise, which differs by O(1) factors between two executions) is at least a factor 1000 below tol/2, or exactly 0 *)
-Definition last_is_noise (tol : float) (steps : nat) (s : @ast cf cvec) : bool :=
+Definition last_is_noise (th : float) (steps : nat) (s : @ast cf cvec) : bool :=
   last_inactive steps s
   && negb ((vmaxabs (nth steps (aQ s) []) =? 0)
-           && match steps with 0 => true | S j => subd s j * 0x1.f4p+9 <=? tol / 2 end).   (* robustly below tol/2: by a factor 1000 *)
+           && match steps with 0 => true | S j => subd s j * 0x1.f4p+9 <=? th end).   (* robustly below the threshold th: by a factor 1000 *)
 
 (* loss of orthogonality of the model's own active columns: single-pass modified Gram-Schmidt loses orthogonality in
    proportion to the conditioning of the Krylov sequence; two binary64 executions that differ by rounding-level
@@ -57,21 +61,21 @@ Definition a_illcond (steps : nat) (ss : list (@ast cf cvec)) : bool :=
 
 Definition drop_col {T} (k : nat) (l : list T) : list T := firstn k l ++ skipn (S k) l.
 
-Definition a_close (tol : float) (steps : nat) (s : @ast cf cvec) (q : list cvec * list cvec) : bool :=
+Definition a_close (th : float) (steps : nat) (s : @ast cf cvec) (q : list cvec * list cvec) : bool :=
   let '(Q, H) := q in
-  let scale := fmax 1 (hscale s) in
-  let '(Qm, Qi) := if last_is_noise tol steps s then (drop_col steps (aQ s), drop_col steps Q) else (aQ s, Q) in
+  let scale := hscale1 s in
+  let '(Qm, Qi) := if last_is_noise th steps s then (drop_col steps (aQ s), drop_col steps Q) else (aQ s, Q) in
   (mdiff Qm Qi <=? rtol) && (mdiff (aH s) H <=? rtol * scale) && Nat.eqb (length (aQ s)) (length Q).
 
 (* 0 agree | 1 excused: disagreement with a stopping decision within 1e-6 of flipping | 2 not compared: noise amplified | 4 values differ *)
 Definition acheck (c : acase) : nat :=
   let o := fops (a_n c) in
   let cap := Nat.min (a_mi c) (a_n c) in
-  let r := arnoldi_batch o (fmv (a_A c)) (a_rfix c) (a_cfix c) (a_n c) (a_vs c) (a_mi c) (a_tol c, 0) in
+  let r := arnoldi_batch o (fmv (a_A c)) (a_rfix c) (a_cfix c) (a_afix c) (a_n c) (a_vs c) (a_mi c) (a_tol c, 0) in
   let steps := fst r in
   if a_amplified steps (snd r) || a_illcond steps (snd r) then 2%nat
-  else if Nat.eqb (length (snd r)) (length (a_out c)) && forallb (fun p => a_close (a_tol c) steps (fst p) (snd p)) (combine (snd r) (a_out c)) then 0%nat
-  else if a_near_tie (a_rfix c) (a_tol c) cap steps (snd r) || a_clip_tie (a_cfix c) (a_tol c) steps (snd r) then 1%nat
+  else if Nat.eqb (length (snd r)) (length (a_out c)) && forallb (fun p => a_close (fthr (a_afix c) (a_tol c) (fst p)) steps (fst p) (snd p)) (combine (snd r) (a_out c)) then 0%nat
+  else if a_near_tie (a_rfix c) (a_tol c) cap steps (snd r) || a_clip_tie (a_cfix c) (a_afix c) (a_tol c) steps (snd r) then 1%nat
   else 4%nat.
 
 Fixpoint acodes (k : nat) (cs : list acase) : list (nat * nat) :=
@@ -82,18 +86,18 @@ Fixpoint acodes (k : nat) (cs : list acase) : list (nat * nat) :=
 
 Definition adiff (c : acase) : float :=
   let o := fops (a_n c) in
-  let r := arnoldi_batch o (fmv (a_A c)) (a_rfix c) (a_cfix c) (a_n c) (a_vs c) (a_mi c) (a_tol c, 0) in
+  let r := arnoldi_batch o (fmv (a_A c)) (a_rfix c) (a_cfix c) (a_afix c) (a_n c) (a_vs c) (a_mi c) (a_tol c, 0) in
   let steps := fst r in
   fold_left (fun acc p =>
     let s := fst p in let '(Q, H) := snd p in
-    let scale := fmax 1 (hscale s) in
-    let '(Qm, Qi) := if last_is_noise (a_tol c) steps s then (drop_col steps (aQ s), drop_col steps Q) else (aQ s, Q) in
+    let scale := hscale1 s in
+    let '(Qm, Qi) := if last_is_noise (fthr (a_afix c) (a_tol c) s) steps s then (drop_col steps (aQ s), drop_col steps Q) else (aQ s, Q) in
     fmax acc (fmax (mdiff Qm Qi) (mdiff (aH s) H / scale))) (combine (snd r) (a_out c)) 0.
 Definition amaxdiff_agreeing (cs : list acase) : float :=
   fold_left (fun acc c => if Nat.eqb (acheck c) 0 then fmax acc (adiff c) else acc) cs 0.
 
 (* the case as seen by the repaired variant arnoldi_batch_capped (= arnoldi_batch with max_iters capped at n, C15_Model.v) *)
-Definition cap_case (c : acase) : acase := mk_acase (a_n c) (a_A c) (a_rfix c) (a_cfix c) (a_vs c) (Nat.min (a_mi c) (a_n c)) (a_tol c) (a_out c).
+Definition cap_case (c : acase) : acase := mk_acase (a_n c) (a_A c) (a_rfix c) (a_cfix c) (a_afix c) (a_vs c) (Nat.min (a_mi c) (a_n c)) (a_tol c) (a_out c).
 
 (* comparison without any gate (no near-tie / amplification excuse, every column compared, NaN anywhere = mismatch): for the
    exact-arithmetic stream (small integers / dyadic data, canonical start vectors, permutations), where every quantity up to the
@@ -101,10 +105,10 @@ Definition cap_case (c : acase) : acase := mk_acase (a_n c) (a_A c) (a_rfix c) (
    tol = 0 with a remainder that is exactly 0.0) included *)
 Definition acheck_plain (c : acase) : nat :=
   let o := fops (a_n c) in
-  let r := arnoldi_batch o (fmv (a_A c)) (a_rfix c) (a_cfix c) (a_n c) (a_vs c) (a_mi c) (a_tol c, 0) in
+  let r := arnoldi_batch o (fmv (a_A c)) (a_rfix c) (a_cfix c) (a_afix c) (a_n c) (a_vs c) (a_mi c) (a_tol c, 0) in
   if Nat.eqb (length (snd r)) (length (a_out c))
      && forallb (fun p => let '(Q, H) := snd p in
-                          (mdiff (aQ (fst p)) Q <=? rtol) && (mdiff (aH (fst p)) H <=? rtol * fmax 1 (hscale (fst p))))
+                          (mdiff (aQ (fst p)) Q <=? rtol) && (mdiff (aH (fst p)) H <=? rtol * hscale1 (fst p)))
                 (combine (snd r) (a_out c))
   then 0%nat else 4%nat.
 Fixpoint acodes_plain (k : nat) (cs : list acase) : list (nat * nat) :=
